@@ -148,7 +148,7 @@ extern int _mpt_stream_setfile(MPT_STRUCT(streaminfo) *info, int nrfd, int nwfd)
 	nwfd = 0;
 	
 	if (orfd >= 0) { close(orfd); nwfd |= 2; }
-	if (owfd >= 0) { close(owfd); nwfd |= 1; }
+	if (owfd >= 0) { if (owfd != orfd) close(owfd); nwfd |= 1; }
 	
 	return nwfd;
 }
